@@ -1,6 +1,6 @@
 (* C14 — Encoding and decoding are deterministic pure functions. *)
 From Coq Require Import Permutation.
-From DNS Require Import Model.Enc Model.Dec Proofs.ListN Proofs.NameLoop Proofs.C14.
+From DNS Require Import Gen.Audit Proofs.Audit Model.Enc Model.Dec Proofs.ListN Proofs.NameLoop Proofs.C14.
 Local Open Scope N_scope.
 
 (* Vocabulary (Proofs/C14.v):
@@ -215,6 +215,13 @@ Definition ex_keys : list name :=
     [L_www]; [] ].
 
 (* reversing the local table gives the same octets, a DIFFERENT index list, and the same lookups *)
+(* no static, thread-local, lazily initialised, interior-mutable, atomic or reference-counted state, no
+   environment / clock / random source and no unsafe block in the library's non-test code (generated
+   audit, re-read from /repo/src on this run) *)
+Theorem C14_no_shared_state : audit_shared_state = [].
+Proof. exact no_shared_state_proof. Qed.
+Print Assumptions C14_no_shared_state.
+
 Example C14_example_reversed :
   exists s1 s2,
     ex_prog enc_domain_name e_init = EOk tt s1 /\
